@@ -85,6 +85,9 @@ type C17Case struct {
 	// numbers fired through the adaptation once every peer's fate is settled.
 	Peers  []Peer  `json:"peers,omitempty"`
 	Events []int32 `json:"events,omitempty"`
+	// TimeoutMs: registration and request timeout of this case (0 = the default 200 ms);
+	// shortened in the cases with 16..64 simultaneously pending bad peers.
+	TimeoutMs int `json:"timeout_ms,omitempty"`
 
 	// sock: <scratch>/e0/../m0/../nri.sock with len(Existing) pre-existing directories
 	// (chmod'ed to the given modes) followed by Missing directories Start has to create,
@@ -446,7 +449,36 @@ func genEvents(t *rapid.T) []int32 {
 // registration queues.
 var kindWeights = []string{"reg", "sock", "reg", "reg", "sock", "reg", "reg", "sock", "reg", "reg", "reg", "sock", "reg", "reg", "sock", "reg", "reg", "sock", "reg", "reg"}
 
+// genCrowd: 16..32 bad peers that are all in the middle of their handshake at the same time
+// (silent, never answering Configure, or registering late: each is only dropped after a
+// timeout), then one or two good peers. The timeouts are shortened to 100 ms so that the
+// serial handling of the unchanged tree (b x timeout) stays below ~3.5 s.
+func genCrowd(t *rapid.T) C17Case {
+	c := C17Case{Kind: "reg", TimeoutMs: 100}
+	b := rapid.SampledFrom([]int{17, 16, 18, 20, 17, 24, 32, 16}).Draw(t, "pending")
+	for i := 0; i < b; i++ {
+		p := genGoodPeer(t, fmt.Sprintf("crowd%d", i))
+		p.Stall = rapid.SampledFrom([]string{stallSilent, stallCfgHang, stallSilent, stallSilent, stallCfgHang, stallLate}).Draw(t, fmt.Sprintf("crowd%d-stall", i))
+		c.Peers = append(c.Peers, p)
+	}
+	for i := 0; i < rapid.IntRange(1, 2).Draw(t, "good-behind"); i++ {
+		c.Peers = append(c.Peers, genGoodPeer(t, fmt.Sprintf("good%d", i)))
+	}
+	c.Events = genEvents(t)
+	return c
+}
+
+// crowdWeights: about 1 case in 50 has 16+ simultaneously pending bad peers (2-3 s each).
+var crowdWeights = func() []bool {
+	w := make([]bool, 50)
+	w[20] = true
+	return w
+}()
+
 func genC17(t *rapid.T) C17Case {
+	if rapid.SampledFrom(crowdWeights).Draw(t, "crowd") {
+		return genCrowd(t)
+	}
 	// (SampledFrom, not IntRange: rapid biases integer ranges towards their ends)
 	if rapid.SampledFrom(kindWeights).Draw(t, "kind") == "sock" {
 		return genSock(t)
@@ -510,6 +542,14 @@ func runC17(c C17Case) ev.Outcome {
 		}
 	}
 
+	if c.TimeoutMs != 0 && (c.TimeoutMs < 50 || c.TimeoutMs > 500) || len(c.Peers) > 80 {
+		return ev.Outcome{Excluded: "reg-out-of-domain"}
+	}
+	if c.TimeoutMs != 0 {
+		setTimeouts(time.Duration(c.TimeoutMs) * time.Millisecond)
+		defer setTimeouts(defaultTimeout)
+	}
+
 	o := regClasses(c)
 	v := runRegOnce(c)
 	o.Lenient = v.lenient
@@ -552,6 +592,21 @@ func bucket(n int) string {
 		return "3-5"
 	default:
 		return "6+"
+	}
+}
+
+func crowdBucket(n int) string {
+	switch {
+	case n == 16:
+		return "16"
+	case n == 17:
+		return "17"
+	case n <= 20:
+		return "18-20"
+	case n <= 32:
+		return "21-32"
+	default:
+		return "33+"
 	}
 }
 
@@ -615,7 +670,16 @@ func regClasses(c C17Case) ev.Outcome {
 	if firstGood < 0 {
 		firstGood = len(c.Peers)
 	}
-	o.Classes = append(o.Classes, fmt.Sprintf("reg:bad-ahead-%d", firstGood))
+	if firstGood >= 16 {
+		// the bad peers ahead are all pending at the same time (connected before the first is
+		// timed out); the primary class of these cases
+		o.Classes = append(o.Classes, "reg:crowd", "crowd:pending-"+crowdBucket(firstGood))
+	}
+	if firstGood > 3 {
+		o.Classes = append(o.Classes, "reg:bad-ahead-4+")
+	} else {
+		o.Classes = append(o.Classes, fmt.Sprintf("reg:bad-ahead-%d", firstGood))
+	}
 	o.Classes = append(o.Classes, "reg", fmt.Sprintf("reg:valid-peers-%d", nValid))
 	if nInvalidSoFar > firstGood {
 		o.Classes = append(o.Classes, "reg:bad-after-good")
@@ -724,6 +788,16 @@ func runRegOnce(c C17Case) (v regVerdict) {
 		if n > 0 {
 			break
 		}
+		// The sentinel sent RegisterPlugin right after connecting; once that call has failed
+		// there is nothing to wait for (the re-execution protocol applies as for the deadline).
+		select {
+		case <-sentinel.scriptDone:
+			if r := sentinel.snapshot(); r.RegErr != "" {
+				clause = "sentinel-registration-failed"
+				return finish(fmt.Sprintf("the well-formed peer behind %d invalid ones could not register: %s", nInvalid, regNote(r)), true)
+			}
+		default:
+		}
 		if time.Now().After(deadline) {
 			clause = "sentinel-not-active-in-time"
 			return finish(fmt.Sprintf("the well-formed peer behind %d invalid ones was not active within %v", nInvalid, bound), true)
@@ -734,14 +808,25 @@ func runRegOnce(c C17Case) (v regVerdict) {
 
 	// Late peers may not have made their registration attempt yet: wait for every script
 	// (a late peer registers 2 x timeout after the peer ahead was settled, i.e. within the
-	// sentinel's bound + 2 x timeout).
+	// sentinel's bound + 2 x timeout). A script that has still not finished then is not a
+	// violation of anything the statement says (the sentinel is active, so nobody is being
+	// prevented from registering; on the unchanged tree it does not happen): the peer is
+	// judged on what it received so far, and the case is counted.
 	scriptDeadline := time.After(time.Until(deadline) + 2*regTimeout + slack)
+	unfinished := false
 	for i, p := range peers {
+		if unfinished {
+			select {
+			case <-p.scriptDone:
+			default:
+			}
+			continue
+		}
 		select {
 		case <-p.scriptDone:
 		case <-scriptDeadline:
-			clause = "register-call-stuck"
-			return finish(fmt.Sprintf("peer %d's RegisterPlugin call did not return although every peer ahead of it is settled", i), true)
+			unfinished = true
+			hist.Notes = append(hist.Notes, fmt.Sprintf("peer %d's script had not finished when the events were fired", i))
 		}
 	}
 
@@ -759,6 +844,9 @@ func runRegOnce(c C17Case) (v regVerdict) {
 
 	// ----- oracle -----
 	var contentFails, timingFails, lenient []string
+	if unfinished {
+		lenient = append(lenient, "reg:script-unfinished")
+	}
 	note := func(c string) {
 		if clause == "" {
 			clause = c
